@@ -24,10 +24,13 @@
 //                 ylh ylH ylA ylHp (each 9 x (re im), row-major) | amu1L>
 //           T EXC <class> <what>
 //
-//   C <tb> <mu> <M1> <M2> <mL> <mR> <Amu> <modes> <nprec> <prec..> <npert> <pert..>
+//   C <tb> <mu> <M1> <M2> <mL> <mR> <Amu> <modes> <nprec> <prec..> <npert> <pert..> [<cstep> <coff>]
 //        generating on-shell point -> calculate_masses() -> pole spectrum copied into fresh
 //        SLHA-type models (examples/example-slha.cpp); modes bit0: without NMIX/SMUMIX, bit1: with,
 //        bit2: with, and the left-like smuon pole mass moved by 1% away from the right-like one;
+//        bit3: as bit0, but model built, converted (gm2calc_mssmnofv_convert_to_onshell_params(h, prec, 1000)) and read
+//        back exclusively through the C interface, bit4: the same with the default entry point
+//        gm2calc_mssmnofv_convert_to_onshell(h) (reported with prec = 1e-8); bits 3,4 only for pert % cstep == coff;
 //        pert = base-3 number, digits (mu, M1, M2, ml2(1,1), me2(1,1)) in {0:-5%, 1:0, 2:+5%}
 //        -> G OK <Mu M1 M2 ml2 me2 | MCha[2] MChi[4] |ZN(i,0)|^2[4] MSvmL MSm[2] USm[4] amu amuscale>
 //           G EXC .. | G PROB ..          (then no R lines)
@@ -42,6 +45,9 @@
 //                    exit, N NaN seen, d "did not converge" message, - none
 //           R <mode> <prec> <pert> EXC <class> <what>
 #include "gm2calc/MSSMNoFV_onshell.hpp"
+#include "gm2calc/MSSMNoFV_onshell.h"      // C interface (C05: conversions through the C entry points)
+#include "gm2calc/gm2_1loop.h"
+#include "gm2calc/gm2_2loop.h"
 #include "gm2calc/THDM.hpp"
 #include "gm2calc/SM.hpp"
 #include "gm2calc/gm2_1loop.hpp"
@@ -61,6 +67,10 @@
 #include <vector>
 
 using namespace gm2calc;
+
+// the C header declares an opaque global `MSSMNoFV_onshell`; the C++ class is called Model in this file and the
+// C handle is always written ::MSSMNoFV_onshell
+typedef gm2calc::MSSMNoFV_onshell Model;
 
 static std::ostringstream captured;   // std::cerr of the library ends up here
 
@@ -83,7 +93,7 @@ static void pd(double x) { std::printf(" %a", x); }
 // SM inputs of an MSSM point: alpha(MZ), alpha(0), MW, MZ, m_mu, mt, mb(mb), mtau  (defaults: example-gm2calc.cpp)
 struct SMIn { double v[8] = {0.0077552, 0.00729735, 80.385, 91.1876, 0.1056583715, 173.34, 4.18, 1.777}; };
 
-static void sm_inputs(MSSMNoFV_onshell& m, const SMIn& s = SMIn()) {
+static void sm_inputs(Model& m, const SMIn& s = SMIn()) {
    const double Pi = 3.141592653589793;
    m.set_alpha_MZ(s.v[0]);
    m.set_alpha_thompson(s.v[1]);
@@ -110,7 +120,7 @@ struct MP { double tb, mu, M1, M2, mL, mR, Amu; SMIn sm; };
 
 // everything that is not scanned; first/third generation sleptons are kept heavy so that the
 // selectron/stau sectors never decide whether a point is accepted
-static void other_inputs(MSSMNoFV_onshell& m, const MP& p) {
+static void other_inputs(Model& m, const MP& p) {
    const Eigen::Matrix<double,3,3> I = Eigen::Matrix<double,3,3>::Identity();
    m.set_TB(p.tb);
    m.set_Ae(1, 1, p.Amu);
@@ -124,7 +134,7 @@ static void other_inputs(MSSMNoFV_onshell& m, const MP& p) {
    m.set_MA0(1500);
    m.set_scale(454.7);
 }
-static void soft_inputs(MSSMNoFV_onshell& m, double mu, double M1, double M2, double ml2, double me2) {
+static void soft_inputs(Model& m, double mu, double M1, double M2, double ml2, double me2) {
    const Eigen::Matrix<double,3,3> I = Eigen::Matrix<double,3,3>::Identity();
    m.set_Mu(mu);
    m.set_MassB(M1);
@@ -144,7 +154,7 @@ static bool read_mp(std::istringstream& in, MP& p) {
 }
 
 // returns 0 ok, 1 exception, 2 problem/warning; prints the status tokens after `tag`
-static int make_onshell(MSSMNoFV_onshell& m, const MP& p, const char* tag) {
+static int make_onshell(Model& m, const MP& p, const char* tag) {
    try {
       sm_inputs(m, p.sm);
       other_inputs(m, p);
@@ -162,7 +172,7 @@ static int make_onshell(MSSMNoFV_onshell& m, const MP& p, const char* tag) {
    return 0;
 }
 
-static void lagrangian(const MSSMNoFV_onshell& m) {
+static void lagrangian(const Model& m) {
    pd(m.get_g1()); pd(m.get_g2()); pd(m.get_vd()); pd(m.get_vu()); pd(m.get_Mu());
    pd(m.get_MassB()); pd(m.get_MassWB()); pd(m.get_ml2(1, 1)); pd(m.get_me2(1, 1));
    pd(m.get_Ye(1, 1)); pd(m.get_TYe(1, 1)); pd(m.get_Ae(1, 1)); pd(m.get_MM());
@@ -172,12 +182,12 @@ static void lagrangian(const MSSMNoFV_onshell& m) {
 // setters + calculate_masses() (the pattern of examples/example-gm2scan.cpp); 2: a copy of the persistent, already
 // evaluated object is moved to the point (the persistent object itself stays where it is)
 static void cmd_M(std::istringstream& in, int mode) {
-   static MSSMNoFV_onshell chain;
+   static Model chain;
    MP p;
    if (!read_mp(in, p) || !read_optional(in, p.sm.v, 8)) { std::printf("ERR bad M command\n"); return; }
-   MSSMNoFV_onshell fresh;
-   MSSMNoFV_onshell copy(chain);
-   MSSMNoFV_onshell& m = mode == 0 ? fresh : mode == 1 ? chain : copy;
+   Model fresh;
+   Model copy(chain);
+   Model& m = mode == 0 ? fresh : mode == 1 ? chain : copy;
    if (make_onshell(m, p, "M")) return;
    double a0, ac, a1;
    try {
@@ -199,7 +209,7 @@ static void cmd_M(std::istringstream& in, int mode) {
    // public convert_to_non_tan_beta_resummed() and the two contributions evaluated on that copy
    try {
       const double antr = calculate_amu_1loop_non_tan_beta_resummed(m);
-      MSSMNoFV_onshell c(m);
+      Model c(m);
       c.convert_to_non_tan_beta_resummed();
       const double c0 = amu1LChi0(c), cc = amu1LChipm(c);
       std::printf(" NTR OK");
@@ -282,13 +292,13 @@ static void cmd_T(std::istringstream& in) {
 
 // total a_mu (1L + 2L, as in the examples) and the scale sum |chi0| + |chi+-| + |2L| against which a
 // difference of two totals is to be judged (the total can cancel)
-static void amu_total(const MSSMNoFV_onshell& m, double& tot, double& scale) {
+static void amu_total(const Model& m, double& tot, double& scale) {
    const double a0 = amu1LChi0(m), ac = amu1LChipm(m), a2 = calculate_amu_2loop(m);
    tot = calculate_amu_1loop(m) + a2;
    scale = std::abs(a0) + std::abs(ac) + std::abs(a2);
 }
 
-static void spectrum(const MSSMNoFV_onshell& m) {
+static void spectrum(const Model& m) {
    pd(m.get_Mu()); pd(m.get_MassB()); pd(m.get_MassWB()); pd(m.get_ml2(1, 1)); pd(m.get_me2(1, 1));
    for (int i = 0; i < 2; i++) pd(m.get_MCha()(i));
    for (int i = 0; i < 4; i++) pd(m.get_MChi()(i));
@@ -309,8 +319,10 @@ static void cmd_C(std::istringstream& in) {
    std::vector<int> perts(npert);
    for (auto& v : perts) in >> v;
    if (!in) { std::printf("ERR bad C command\n"); return; }
+   int cstep = 0, coff = 0;                 // C-interface modes: only perturbations with pert % cstep == coff
+   if (!(in >> cstep >> coff)) { cstep = 0; coff = 0; }
 
-   MSSMNoFV_onshell g;
+   Model g;
    if (make_onshell(g, p, "G")) return;
    double ag, ags;
    try { amu_total(g, ag, ags); }
@@ -320,54 +332,139 @@ static void cmd_C(std::istringstream& in) {
    std::printf("\n");
 
    static const double fac[3] = {0.95, 1.0, 1.05};
-   for (int mode = 0; mode < 3; mode++) {
+   struct Handle {                      // C handle with guaranteed free
+      ::MSSMNoFV_onshell* h{nullptr};
+      ~Handle() { if (h) gm2calc_mssmnofv_free(h); }
+   };
+   for (int mode = 0; mode < 5; mode++) {
       if (!(modes >> mode & 1)) continue;
-      for (double prec : precs) for (int pert : perts) {
+      const bool capi = mode >= 3;
+      for (std::size_t ip = 0; ip < precs.size(); ip++) for (int pert : perts) {
+         double prec = precs[ip];
+         if (capi && (cstep <= 0 || pert % cstep != coff)) continue;
+         if (mode == 4) {               // default entry point: documented defaults precision 1e-8, 1000 iterations
+            if (ip != 0) continue;
+            prec = 1e-8;
+         }
          int dgt[5], q = pert;
          for (int i = 0; i < 5; i++) { dgt[i] = q % 3; q /= 3; }
-         MSSMNoFV_onshell m;
+         const double gmu = g.get_Mu() * fac[dgt[0]], gM1 = g.get_MassB() * fac[dgt[1]], gM2 = g.get_MassWB() * fac[dgt[2]],
+                      gml2 = g.get_ml2(1, 1) * fac[dgt[3]], gme2 = g.get_me2(1, 1) * fac[dgt[4]];
+         Model local;
+         Handle H;
+         Model* mp = &local;
          std::printf("R %d %a %d", mode, prec, pert);
          captured.str("");
          try {
-            sm_inputs(m);
-            // pole masses, as GM2_slha_io::fill_slha() leaves them (Haber-Kane: positive masses)
-            m.get_physical().MSvmL = g.get_MSvmL();
-            m.get_physical().MSm = g.get_MSm();
-            m.get_physical().MChi = g.get_MChi();
-            m.get_physical().MCha = g.get_MCha();
-            m.get_physical().MAh(1) = 1500;
-            if (mode >= 1) {
-               m.get_physical().ZN = g.get_ZN();
-               m.get_physical().ZM = g.get_USm();
+            if (!capi) {
+               Model& m = local;
+               sm_inputs(m);
+               // pole masses, as GM2_slha_io::fill_slha() leaves them (Haber-Kane: positive masses)
+               m.get_physical().MSvmL = g.get_MSvmL();
+               m.get_physical().MSm = g.get_MSm();
+               m.get_physical().MChi = g.get_MChi();
+               m.get_physical().MCha = g.get_MCha();
+               m.get_physical().MAh(1) = 1500;
+               if (mode >= 1) {
+                  m.get_physical().ZN = g.get_ZN();
+                  m.get_physical().ZM = g.get_USm();
+               }
+               if (mode == 2) {
+                  // a spectrum that is not a tree-level one: move the mostly left-handed smuon pole mass 1% away
+                  // from the right-handed one (the scheme does not use it; the mass ordering is preserved)
+                  const int l = std::abs(g.get_USm()(0, 0)) >= std::abs(g.get_USm()(1, 0)) ? 0 : 1;
+                  m.get_physical().MSm(l) *= (l == 1 ? 1.01 : 0.99);
+               }
+               // DR-bar parameters / initial guesses
+               other_inputs(m, p);
+               soft_inputs(m, gmu, gM1, gM2, gml2, gme2);
+               m.set_verbose_output(true);
+               m.convert_to_onshell(prec, 1000);
+               m.set_verbose_output(false);
+            } else {
+               // the same case as mode 0, built and converted exclusively through the C interface
+               ::MSSMNoFV_onshell* h = H.h = gm2calc_mssmnofv_new();
+               const SMIn sm;
+               gm2calc_mssmnofv_set_alpha_MZ(h, sm.v[0]);
+               gm2calc_mssmnofv_set_alpha_thompson(h, sm.v[1]);
+               gm2calc_mssmnofv_set_g3(h, std::sqrt(4 * 3.141592653589793 * 0.1184));
+               gm2calc_mssmnofv_set_MT_pole(h, sm.v[5]);
+               gm2calc_mssmnofv_set_MB_running(h, sm.v[6]);
+               gm2calc_mssmnofv_set_MM_pole(h, sm.v[4]);
+               gm2calc_mssmnofv_set_ML_pole(h, sm.v[7]);
+               gm2calc_mssmnofv_set_MW_pole(h, sm.v[2]);
+               gm2calc_mssmnofv_set_MZ_pole(h, sm.v[3]);
+               gm2calc_mssmnofv_set_MSvmL_pole(h, g.get_MSvmL());
+               for (unsigned i = 0; i < 2; i++) gm2calc_mssmnofv_set_MSm_pole(h, i, g.get_MSm()(i));
+               for (unsigned i = 0; i < 4; i++) gm2calc_mssmnofv_set_MChi_pole(h, i, g.get_MChi()(i));
+               for (unsigned i = 0; i < 2; i++) gm2calc_mssmnofv_set_MCha_pole(h, i, g.get_MCha()(i));
+               gm2calc_mssmnofv_set_MAh_pole(h, 1500);
+               gm2calc_mssmnofv_set_TB(h, p.tb);
+               gm2calc_mssmnofv_set_Ae(h, 1, 1, p.Amu);
+               gm2calc_mssmnofv_set_MassG(h, 1000);
+               for (unsigned i = 0; i < 3; i++) {
+                  gm2calc_mssmnofv_set_mq2(h, i, i, 5000. * 5000.);
+                  gm2calc_mssmnofv_set_md2(h, i, i, 5000. * 5000.);
+                  gm2calc_mssmnofv_set_mu2(h, i, i, 5000. * 5000.);
+                  gm2calc_mssmnofv_set_ml2(h, i, i, 3000. * 3000.);
+                  gm2calc_mssmnofv_set_me2(h, i, i, 3000. * 3000.);
+               }
+               gm2calc_mssmnofv_set_Au(h, 2, 2, 0);
+               gm2calc_mssmnofv_set_Ad(h, 2, 2, 0);
+               gm2calc_mssmnofv_set_Ae(h, 2, 2, 0);
+               gm2calc_mssmnofv_set_scale(h, 454.7);
+               gm2calc_mssmnofv_set_Mu(h, gmu);
+               gm2calc_mssmnofv_set_MassB(h, gM1);
+               gm2calc_mssmnofv_set_MassWB(h, gM2);
+               gm2calc_mssmnofv_set_ml2(h, 1, 1, gml2);
+               gm2calc_mssmnofv_set_me2(h, 1, 1, gme2);
+               gm2calc_mssmnofv_set_verbose_output(h, 1);
+               const gm2calc_error err = mode == 3 ? gm2calc_mssmnofv_convert_to_onshell_params(h, prec, 1000)
+                                                   : gm2calc_mssmnofv_convert_to_onshell(h);
+               gm2calc_mssmnofv_set_verbose_output(h, 0);
+               if (err != gm2calc_NoError) {
+                  std::printf(" EXC gm2calc_error %d\n", static_cast<int>(err));
+                  continue;
+               }
+               mp = reinterpret_cast<Model*>(h);     // only for the auxiliary columns below
             }
-            if (mode == 2) {
-               // a spectrum that is not a tree-level one: move the mostly left-handed smuon pole mass 1% away
-               // from the right-handed one (the scheme does not use it; the mass ordering is preserved)
-               const int l = std::abs(g.get_USm()(0, 0)) >= std::abs(g.get_USm()(1, 0)) ? 0 : 1;
-               m.get_physical().MSm(l) *= (l == 1 ? 1.01 : 0.99);
-            }
-            // DR-bar parameters / initial guesses
-            other_inputs(m, p);
-            soft_inputs(m, g.get_Mu() * fac[dgt[0]], g.get_MassB() * fac[dgt[1]], g.get_MassWB() * fac[dgt[2]],
-                        g.get_ml2(1, 1) * fac[dgt[3]], g.get_me2(1, 1) * fac[dgt[4]]);
-            m.set_verbose_output(true);
-            m.convert_to_onshell(prec, 1000);
-            m.set_verbose_output(false);
+            Model& m = *mp;
             double a, as;
             amu_total(m, a, as);
             // muon Yukawa the me2 fit was performed with: resummed from (fitted mu, M1, M2, ml2; me2 = initial guess)
             double y_prefit = std::numeric_limits<double>::quiet_NaN();
             try {
-               MSSMNoFV_onshell c(m);
-               c.set_me2(1, 1, g.get_me2(1, 1) * fac[dgt[4]]);
+               Model c(m);
+               c.set_me2(1, 1, gme2);
                c.calculate_masses();
                y_prefit = c.get_Ye(1, 1);
             } catch (const std::exception&) {}
             const auto& pr = m.get_problems();
-            const int flags = (pr.have_warning() ? 1 : 0) | (pr.no_Mu_MassB_MassWB_convergence() ? 2 : 0)
-                              | (pr.no_me2_convergence() ? 4 : 0) | (pr.have_problem() ? 8 : 0);
-            std::printf(" OK %d", flags);
-            spectrum(m); pd(a); pd(as);
+            int flags = (pr.no_Mu_MassB_MassWB_convergence() ? 2 : 0) | (pr.no_me2_convergence() ? 4 : 0);
+            if (!capi) {
+               flags |= (pr.have_warning() ? 1 : 0) | (pr.have_problem() ? 8 : 0);
+               std::printf(" OK %d", flags);
+               spectrum(m); pd(a); pd(as);
+            } else {
+               // everything the oracle decides on comes through the C getters
+               ::MSSMNoFV_onshell* h = H.h;
+               flags |= (gm2calc_mssmnofv_have_warning(h) ? 1 : 0) | (gm2calc_mssmnofv_have_problem(h) ? 8 : 0);
+               std::printf(" OK %d", flags);
+               pd(gm2calc_mssmnofv_get_Mu(h)); pd(gm2calc_mssmnofv_get_MassB(h)); pd(gm2calc_mssmnofv_get_MassWB(h));
+               pd(gm2calc_mssmnofv_get_ml2(h, 1, 1)); pd(gm2calc_mssmnofv_get_me2(h, 1, 1));
+               for (unsigned i = 0; i < 2; i++) pd(gm2calc_mssmnofv_get_MCha(h, i));
+               for (unsigned i = 0; i < 4; i++) pd(gm2calc_mssmnofv_get_MChi(h, i));
+               for (unsigned i = 0; i < 4; i++) {
+                  double im = 0;
+                  const double re = gm2calc_mssmnofv_get_ZN(h, i, 0, &im);
+                  pd(std::norm(std::complex<double>(re, im)));
+               }
+               pd(gm2calc_mssmnofv_get_MSvmL(h));
+               for (unsigned i = 0; i < 2; i++) pd(gm2calc_mssmnofv_get_MSm(h, i));
+               for (unsigned i = 0; i < 2; i++) for (unsigned j = 0; j < 2; j++) pd(gm2calc_mssmnofv_get_USm(h, i, j));
+               pd(gm2calc_mssmnofv_calculate_amu_1loop(h) + gm2calc_mssmnofv_calculate_amu_2loop(h));
+               pd(as);
+            }
             pd(pr.get_Mu_MassB_MassWB_convergence_problem().precision);
             pd(pr.get_me2_convergence_problem().precision);
             pd(m.get_g1()); pd(m.get_g2()); pd(m.get_vd()); pd(m.get_vu()); pd(m.get_Ye(1, 1)); pd(m.get_TYe(1, 1));
